@@ -49,7 +49,7 @@ def _mined():
 
 # configs 3.. : directed SRP exchanges whose A / B / S / K / M1 / M2 / u start with a zero byte (inputs mined with the reference only)
 for _m in _mined():
-    if _m["target"] in ("A", "B", "S", "K", "M1", "M2", "u", "A00"):
+    if _m["target"] in ("A", "B", "S", "K", "M1", "M2", "u", "A00", "HIP", "HIP00", "x"):
         CONFIGS.append(dict(code=_m["code"], ios_id="decc6fa3-de3e-41c9-adba-ef7409821bfc", acc_id="AA:BB:CC:DD:EE:FF", with_auth=True, srp=_m))
 
 
